@@ -436,7 +436,16 @@ def mul_summary(facts, ea, eb):
             nm = E.unit_sym(vals[0])
             return [(Agg("tuple", None, None, None, (Sym("derived(%r)" % nm), Sym("bases(%r)" % nm))), store)]
         if name == "compound::Compound::mul::reconstruct":
-            return [(ok(UNIT), dom.with_log(store, ("reconstruct", vals[0], repr(vals[1]), vals[2]))),
+            # arguments by what they are, not by position: the units to re-derive (an iterator term over derived(..)), the
+            # value they are shed from (a reference to one operand's value), the power with which that value enters the
+            # combined result (when the function is told), the map
+            der = next((v for v in vals if "derived(" in repr(v)), vals[0] if vals else None)
+            out = None
+            for a_ in args:
+                if isinstance(a_, Ref) and a_.frame == 0 and a_.local in (2, 3) and not a_.proj:
+                    out = "lhs" if a_.local == 2 else "rhs"
+            side = next((v for v in vals if v == Sym("n") or (isinstance(v, Const) and isinstance(v.v, int) and not isinstance(v.v, bool))), None)
+            return [(ok(UNIT), dom.with_log(store, ("reconstruct", der, out, side))),
                     (compound_err(), dom.with_log(store, ("fail", "reconstruct")))]
         if name == "compound::Compound::new":
             return [(Agg("adt", "compound::Compound", 0, "Compound", (vals[0],)), store)]
@@ -522,7 +531,18 @@ def reconstruct_summary(facts):
     dom = UnitDomain(facts, opaque={"compound::apply_conversion"}, extra=extra)
     it = core.Interp(facts, dom, budget=200000)
     store = {(0, 0): rational("out"), (0, 1): Sym("names")}
-    outs = it.run(body, [Sym("der"), Ref(0, 0), Ref(0, 1)], store)
+    argv = []
+    for i_ in range(1, body.arg_count + 1):
+        ty_ = body.local_ty(i_)
+        if "Rational" in ty_:
+            argv.append(Ref(0, 0))
+        elif "BTreeMap" in ty_:
+            argv.append(Ref(0, 1))
+        elif ty_ in ("i32", "i64", "isize"):
+            argv.append(Sym("side"))  # the power with which `out` enters the combined value
+        else:
+            argv.append(Sym("der"))
+    outs = it.run(body, argv, store)
     res = []
     for o in outs:
         if o.kind != "ret":
